@@ -1,4 +1,7 @@
-import RV.Proofs.Sync
+import RV.Proofs.SyncCorr
+import RV.Proofs.SyncSaba
+import RV.Proofs.SyncMerc
+import Mathlib.Tactic.Ring
 /-
   C09 — deferred synchronisation never changes the physics.
 
@@ -79,5 +82,261 @@ theorem c09_whfast_synchronize_twice_no_primitives (c : Config) (hk : c.keep = f
     · rw [syncOps_unsync c f hs]; simp [hk, initF_allocated]
     · rw [syncOps_sync c f hs]; exact ⟨hs, initF_allocated _⟩
   rw [syncOps_sync c _ (by rw [initF_of_allocated hy.2]; exact hy.1)]
+
+/-! ### physics part: group laws of the primitives as hypotheses -/
+
+section physics
+variable [AddCommGroup T]
+
+/-- **Unsafe mode + synchronize = safe mode** (WHFast: every coordinate system, kernel, corrector
+    order), for every sequence `σ` of steps, intermediate synchronisations and read-only calls,
+    hence for any number of steps between synchronisations: positions, velocities and internal
+    coordinates after a final `synchronize` are those of the safe-mode run doing the same steps.
+
+    Hypotheses: `Laws` = Kepler and centre-of-mass drifts are flows (`K a ∘ K b = K (a+b)`) that
+    commute with each other, `from_inertial ∘ to_inertial = id` (C12), `dt/2 + dt/2 = dt`,
+    `5dt/8 + 3dt/8 = dt`; `hC`: the first symplectic corrector with `inv = 1` undoes the one
+    with `inv = -1` (proved from the group laws of its factors in
+    `c09_whfast_corrector_inverse`).
+
+    `…_partial` because of `hF18`: the same for the second corrector (`corrector2`).  For the
+    source as found (`c.c2fixed = false`) this hypothesis is FALSE when `corrector2 = 1` — finding
+    F18:whfast-corrector2-not-inverse: `reb_whfast_apply_corrector2(r,-1.)` is not the inverse
+    of `apply_corrector2(r,1.)` (`c09_F18_corrector2_not_inverse_in_model`).  It is trivially
+    true when `corrector2 = 0` (`c09_whfast_unsafe_sync_equals_safe_no_corrector2`) and proved
+    for the repaired source (`c09_whfast_unsafe_sync_equals_safe_repaired`).  Start state: synchronised, coordinates about to be
+    recalculated (a new simulation, or after the user set the flag). -/
+theorem c09_whfast_unsafe_sync_equals_safe_partial (S : Sem T PJ X V A) (L : Laws S) (c : Config)
+    (hC : InverseOn S (corrBlk c)) (hF18 : InverseOn S (c2Blk c))
+    (σ : List (Op (X × V))) (hσ : ∀ o ∈ σ, o.benign = true) (x0 : Flags × St PJ X V A)
+    (h0 : x0.1.isSync = true) (hr : (initF x0.1).recalc = true) :
+    let u := apply S (c.mode false false) .synchronize (run S (c.mode false false) σ x0)
+    let v := run S (c.mode true false) (σ.filter Op.isStep) x0
+    u.2.pj = v.2.pj ∧ u.2.pos = v.2.pos ∧ u.2.vel = v.2.vel := by
+  intro u v
+  have hf : initF x0.1 = ⟨true, true, true⟩ := by
+    rw [flags_eta (initF x0.1), initF_isSync, h0, hr, initF_allocated]
+  exact inv_final S c (inv_run L c hC hF18 σ hσ x0 x0 (Inv.fresh _ _ rfl hf hf))
+
+/-- the statement for `n` uninterrupted steps: `sync (stepsUnsafe n s) = stepsSafe n s` -/
+theorem c09_whfast_n_steps_partial (S : Sem T PJ X V A) (L : Laws S) (c : Config)
+    (hC : InverseOn S (corrBlk c)) (hF18 : InverseOn S (c2Blk c)) (n : Nat)
+    (x0 : Flags × St PJ X V A) (h0 : x0.1.isSync = true) (hr : (initF x0.1).recalc = true) :
+    let u := apply S (c.mode false false) .synchronize
+      (run S (c.mode false false) (List.replicate n .step) x0)
+    let v := run S (c.mode true false) (List.replicate n .step) x0
+    u.2.pj = v.2.pj ∧ u.2.pos = v.2.pos ∧ u.2.vel = v.2.vel := by
+  have h := c09_whfast_unsafe_sync_equals_safe_partial S L c hC hF18 (List.replicate n .step)
+    (fun o ho => by rw [List.eq_of_mem_replicate ho]; rfl) x0 h0 hr
+  have e : (List.replicate n (Op.step : Op (X × V))).filter Op.isStep = List.replicate n .step := by
+    rw [List.filter_eq_self]; intro o ho; rw [List.eq_of_mem_replicate ho]; rfl
+  rw [e] at h
+  exact h
+
+/-- full strength where it holds: no second corrector, no hypothesis beyond the group laws of
+    drift and transformation when there is no first corrector either -/
+theorem c09_whfast_unsafe_sync_equals_safe (S : Sem T PJ X V A) (L : Laws S) (c : Config)
+    (hc : c.corrector = 0) (hc2 : c.corrector2 = false)
+    (σ : List (Op (X × V))) (hσ : ∀ o ∈ σ, o.benign = true) (x0 : Flags × St PJ X V A)
+    (h0 : x0.1.isSync = true) (hr : (initF x0.1).recalc = true) :
+    let u := apply S (c.mode false false) .synchronize (run S (c.mode false false) σ x0)
+    let v := run S (c.mode true false) (σ.filter Op.isStep) x0
+    u.2.pj = v.2.pj ∧ u.2.pos = v.2.pos ∧ u.2.vel = v.2.vel := by
+  apply c09_whfast_unsafe_sync_equals_safe_partial S L c ?_ ?_ σ hσ x0 h0 hr
+  · intro s; simp [corrBlk, hc, exec]
+  · intro s; simp [c2Blk, hc2, exec]
+
+/-- **A7.**  The first symplectic corrector (orders 3, 5, 7, 11, 17; Jacobi and barycentric
+    coordinates) applied with `inv = 1` undoes the one applied with `inv = -1`, from the group laws
+    of its factors (`CorrLaws`: Kepler drift is a flow, the kick is additive in its coefficient
+    and does not move positions) and the palindromic structure of the table of
+    `reb_whfast_apply_corrector`, which is checked by `decide`. -/
+theorem c09_whfast_corrector_inverse (S : Sem T PJ X V A) (L : CorrLaws S) (c : Config) :
+    InverseOn S (corrBlk c) := corrector_inverse L c
+
+/-- full strength without the second corrector: every coordinate system, kernel and order of
+    the first corrector; hypotheses are only the group laws of the primitives -/
+theorem c09_whfast_unsafe_sync_equals_safe_no_corrector2 (S : Sem T PJ X V A) (L : Laws S)
+    (LC : CorrLaws S) (c : Config) (hc2 : c.corrector2 = false)
+    (σ : List (Op (X × V))) (hσ : ∀ o ∈ σ, o.benign = true) (x0 : Flags × St PJ X V A)
+    (h0 : x0.1.isSync = true) (hr : (initF x0.1).recalc = true) :
+    let u := apply S (c.mode false false) .synchronize (run S (c.mode false false) σ x0)
+    let v := run S (c.mode true false) (σ.filter Op.isStep) x0
+    u.2.pj = v.2.pj ∧ u.2.pos = v.2.pos ∧ u.2.vel = v.2.vel := by
+  apply c09_whfast_unsafe_sync_equals_safe_partial S L c (corrector_inverse LC c) ?_ σ hσ x0 h0 hr
+  intro s; simp [c2Blk, hc2, exec]
+
+/-- **Full strength for the repaired source** (fixes/F18.diff, `c.c2fixed = true`; rv/c09.py
+    detects the variant and the replay confirms it bit for bit): every coordinate system, kernel,
+    first-corrector order, with or without the second corrector; only the group laws of the
+    primitives are assumed. -/
+theorem c09_whfast_unsafe_sync_equals_safe_repaired (S : Sem T PJ X V A) (L : Laws S)
+    (LC : CorrLaws S) (L2 : C2Laws S) (c : Config) (hf : c.c2fixed = true)
+    (σ : List (Op (X × V))) (hσ : ∀ o ∈ σ, o.benign = true) (x0 : Flags × St PJ X V A)
+    (h0 : x0.1.isSync = true) (hr : (initF x0.1).recalc = true) :
+    let u := apply S (c.mode false false) .synchronize (run S (c.mode false false) σ x0)
+    let v := run S (c.mode true false) (σ.filter Op.isStep) x0
+    u.2.pj = v.2.pj ∧ u.2.pos = v.2.pos ∧ u.2.vel = v.2.vel :=
+  c09_whfast_unsafe_sync_equals_safe_partial S L c (corrector_inverse LC c)
+    (corrector2_inverse_fixed LC L2 c hf) σ hσ x0 h0 hr
+
+end physics
+
+/-! ### SABA -/
+
+/-- **SABA, interleaving theorem** (all 18 types incl. both corrector families;
+    `ri_saba.keep_unsynchronized = 1`, `safe_mode = 0`): as for WHFast.  Extra hypothesis on the
+    start flags: coordinates are not about to be recalculated from an unsynchronised state —
+    unlike WHFast, SABA's part1 does not synchronise before `from_inertial`
+    (integrator_saba.c:240-243); true for a new simulation and after every step. -/
+theorem c09_saba_keep_unsynchronized_bitwise (S : Sem T PJ X V A) (c : SabaConfig)
+    (hk : c.keep = true) (hs : c.safe = false) (σ : List (Op (X × V)))
+    (hσ : ∀ o ∈ σ, o.benign = true) (x : Flags × St PJ X V A)
+    (hx : (initF x.1).isSync = false → (initF x.1).recalc = false) :
+    let a := sabaRun S c σ x
+    let b := sabaRun S c (σ.filter Op.isStep) x
+    a.2.pj = b.2.pj ∧ initF a.1 = initF b.1 ∧
+    (sabaApply S c .synchronize a).2.pj = (sabaApply S c .synchronize b).2.pj ∧
+    (sabaApply S c .synchronize a).2.pos = (sabaApply S c .synchronize b).2.pos ∧
+    (sabaApply S c .synchronize a).2.vel = (sabaApply S c .synchronize b).2.vel := by
+  intro a b
+  have h := srel_run S c hk hs σ hσ x x ⟨Rel.refl x, hx⟩
+  have hi : a.1.isSync = b.1.isSync := by
+    have := congrArg Flags.isSync h.1.1
+    rwa [initF_isSync, initF_isSync] at this
+  exact ⟨h.1.2.1, h.1.1, srel_sync_obs S c hk h hi⟩
+
+/-- SABA: with `keep_unsynchronized`, `synchronize` leaves `p_jh` and every flag unchanged -/
+theorem c09_saba_keep_sync_preserves_internal (S : Sem T PJ X V A) (c : SabaConfig)
+    (hk : c.keep = true) (x : Flags × St PJ X V A) :
+    (sabaApply S c .synchronize x).2.pj = x.2.pj ∧ (sabaApply S c .synchronize x).1 = x.1 := by
+  refine ⟨saba_exec_sync_keep_pj S c hk _ _, ?_⟩
+  show (sabaSyncOps c x.1).2 = x.1
+  rw [sabaSyncOps_keep c hk]
+
+/-- SABA: without `keep_unsynchronized` a second `synchronize` emits no primitive -/
+theorem c09_saba_synchronize_twice_no_primitives (c : SabaConfig) (hk : c.keep = false) (f : Flags) :
+    (sabaSyncOps c (sabaSyncOps c f).2).1 = [] := by
+  unfold sabaSyncOps
+  cases h : f.isSync <;> simp [hk, h]
+
+/-! ### MERCURIUS (kick first) and EOS (outer scheme) -/
+
+/-- **MERCURIUS: unsafe mode + synchronize = safe mode**, any sequence of steps, synchronisations
+    and read-only calls from a new simulation.  Hypotheses (`MLaws`): the interaction kick is
+    additive in its coefficient at fixed positions (`I(dt/2)∘I(dt/2) = I(dt)`), does not move
+    positions, and `inertial_to_dh ∘ dh_to_inertial = id`.  The Kepler/encounter step is
+    arbitrary. -/
+theorem c09_mercurius_unsafe_sync_equals_safe {P C Dc : Type} [AddCommGroup T]
+    (S : MSem T P C A Dc) (L : MLaws S) (σ : List (Op P)) (hσ : ∀ o ∈ σ, o.benign = true)
+    (x0 : MFlags × MSt P C A Dc) (h0 : x0.1.isSync = true) (h1 : x0.1.allocD = false) :
+    (mApply S false .synchronize (mRun S false σ x0)).2.p = (mRun S true (σ.filter Op.isStep) x0).2.p :=
+  mInv_final S (mInv_run L σ hσ x0 x0 (MInv.fresh _ _ rfl h0 h1))
+
+/-- MERCURIUS: `synchronize` twice = once (the second call emits no primitive) -/
+theorem c09_mercurius_synchronize_twice_no_primitives (f : MFlags) :
+    (mSyncOps (mSyncOps f).2).1 = [] := by
+  unfold mSyncOps
+  cases h : f.isSync <;> simp [h]
+
+/-- **EOS, `…_partial`**: the outer scheme of EOS in unsafe mode, synchronised at the end, equals
+    safe mode *if* the outer drift were an exact flow (`drift a₀ ∘ drift a₀ = drift 2a₀`) and the
+    pre-processor undid the post-processor.  In the code the drift is the inner splitting scheme
+    `phi1` with `n` sub-steps, so the first hypothesis holds only up to `phi1`'s truncation error:
+    the two modes are the *same method up to merging adjacent drifts*, and differ by a
+    truncation-level amount — which is what the property allows for EOS and what the search
+    measures (difference ≤ 10 × the scheme's own error, observed ratio ≤ 4.5). -/
+theorem c09_eos_unsafe_sync_equals_safe_partial {E : Type} (S : ESem E) (L : ELaws S)
+    (σ : List (Op E)) (hσ : ∀ o ∈ σ, o.benign = true) (s0 : E) :
+    (eApply S false .synchronize (eRun S false σ (true, s0))).2 =
+      (eRun S true (σ.filter Op.isStep) (true, s0)).2 := by
+  have h := eos_run L σ hσ (true, s0) (true, s0) (Or.inl ⟨rfl, rfl, rfl⟩)
+  rcases h with ⟨h1, h2, h3⟩ | ⟨h1, h2, h3⟩
+  · simp [eApply, eSyncOps, h1, eExec, h3]
+  · simp [eApply, eSyncOps, h1, eExec, eDenote, h3]
+
+/-- EOS: `synchronize` twice = once -/
+theorem c09_eos_synchronize_twice_no_primitives (b : Bool) : (eSyncOps (eSyncOps b).2).1 = [] := by
+  cases b <;> rfl
+
+/-! ### the hypotheses are satisfiable: a 1-D oscillator, integer time -/
+
+/-- `p_jh` = (position, velocity, centre of mass); time in units of dt/8 -/
+def demoSem : Sem Int (Int × Int × Int) Int Int Int where
+  ev := fun c => match c with
+    | .frac n d => n * (8 / (d : Int)) | .corrA i m => m * (7 * i) | .corrB n s => s * n
+    | .c2b s => s | _ => 0
+  fromI := fun x v p => (x, v, p.2.2)
+  toIpos := fun p => p.1
+  toIvel := fun p => p.2.1
+  posJ := fun p => p.1
+  posB := fun p => p.1
+  kepler := fun a p => (p.1 + a * p.2.1, p.2.1, p.2.2)
+  com := fun a p => (p.1, p.2.1, p.2.2 + a)
+  jump := fun _ p => p
+  inter := fun b acc p => (p.1, p.2.1 + b * acc, p.2.2)
+  upd := fun x => -x
+  jerk := fun _ _ p => p
+  mkFold := fun _ a => a
+  jacAcc := fun _ p => p
+  lazyShift := fun p => p
+  lazyReset := fun _ p => p
+  sabaFold := fun _ => 0
+  sabaLazyKick := fun _ _ p => p
+
+example : Laws demoSem where
+  kepler_add := by intro a b p; simp only [demoSem]; ext <;> simp; ring
+  com_add := by intro a b p; simp only [demoSem]; ext <;> simp; ring
+  kepler_com := by intro a b p; rfl
+  from_to := by intro p; rfl
+  ev_half := by decide
+  ev_comp := by decide
+
+example : C2Laws demoSem where
+  ev_half_neg := by decide
+  ev_c2b_neg := by decide
+
+example : CorrLaws demoSem where
+  kepler_add := by intro a b p; simp only [demoSem]; ext <;> simp; ring
+  kepler_zero := by intro p; simp [demoSem]
+  inter_add := by intro a b acc p; simp only [demoSem]; ext <;> simp; ring
+  inter_zero := by intro acc p; simp [demoSem]
+  posJ_inter := by intro b acc p; rfl
+  posB_inter := by intro b acc p; rfl
+  ev_corrA_neg := by intro i m; simp [demoSem]
+  ev_corrA_double := by intro i m; simp only [demoSem]; ring
+  ev_corrB_neg := by intro n s; simp [demoSem]
+
+/-- MERCURIUS demo: particles = (x, v), kick with a cubic force -/
+def demoMSem : MSem Int (Int × Int) Unit Int Unit where
+  ev := fun c => match c with | .frac n d => n * (8 / (d : Int)) | _ => 0
+  toDhP := fun p => p
+  toDhC := fun _ => ()
+  toI := fun p _ => p
+  upd := fun p => -(p.1 * p.1 * p.1)
+  inter := fun b acc p => (p.1, p.2 + b * acc)
+  jump := fun _ p => p
+  com := fun _ c => c
+  kepEnc := fun a _ p => (p.1 + a * p.2, p.2)
+  dcrit := fun _ => ()
+
+example : MLaws demoMSem where
+  inter_add := by intro a b acc p; simp only [demoMSem]; ext <;> simp; ring
+  upd_inter := by intro b acc p; rfl
+  dh_to := by intro p c; simp [demoMSem]
+  ev_half := by decide
+
+/-- **F18 at model level.**  In this instance, which satisfies every group law above, the
+    second corrector of the source as found (`c2fixed = false`) with `inv = 1` does *not* undo
+    the one with `inv = -1`: the call list of `reb_whfast_apply_corrector2` (negating both `a`
+    and `b`) is not an inverse, so the
+    hypothesis `hF18` of `c09_whfast_unsafe_sync_equals_safe_partial` cannot be derived from
+    the laws of the primitives.  The search of rv/c09.py exhibits the same on the real code. -/
+theorem c09_F18_corrector2_not_inverse_in_model :
+    ¬ InverseOn demoSem (c2Blk ⟨.jacobi, 0, 0, true, false, false, false⟩) := by
+  intro h
+  have := h ⟨(1, 0, 0), 0, 0, 0, (0, 0, 0), (0, 0, 0)⟩
+  revert this
+  decide
 
 end RV.Sync
